@@ -13,7 +13,7 @@ import (
 
 func init() {
 	Registry["C10"] = Prop{
-		Patterns: []string{"./ring"},
+		Patterns: []string{"./ring", "./concurrency"},
 		Run:      runC10,
 		Explanation: "Decides structural necessary conditions of 'batched quorum writes always finish, with quorum per key' in ring.DoBatchWithOptions and batchTracker.record: (R1) the completion latch cannot be armed with a zero count: the wait is unreachable for an empty key list and the pending counter is initialised with the number of keys; " +
 			"(R2) every send on the done/err channels is guarded by the single-winner atomic test and the channels have capacity ≥ 1, so no recording goroutine can block; (R3) on every entry→return path Cleanup is invoked exactly once (directly, or by the one goroutine that first waits for the wait group); " +
@@ -33,11 +33,13 @@ func runC10(c *core.Ctx) {
 	c.Rule("R8", "per-key counters initialised from the replication set that is iterated", 3)
 	c.Rule("R9", "DoBatch is a pure delegation to DoBatchWithOptions (no second batching path)", 1)
 	c.Rule("R10", "per-key decision table of batchTracker.record (immediate error on tolerance exceeded, error at the last replica, success at quorum)", 1)
+	c.Rule("R13", "spawners handed to DoBatch never run the workload on the caller's goroutine; the emptiness guard counts every registered instance", 3)
 	c.Rule("R12", "the default error classifier sees through wrapped errors and is what DoBatch and defaulted options use", 2)
 	c.Rule("R11", "recordError stores every error and counts it in exactly one family", 1)
 	pkg := c.Prog.Pkg("ring")
 	defer c10Decision(c)
 	defer c10Classifier(c)
+	defer c10Spawners(c)
 	fn := an.FindFunc(pkg, "DoBatchWithOptions")
 	rec := an.FindFunc(pkg, "batchTracker.record")
 	if fn == nil || rec == nil {
@@ -666,4 +668,92 @@ func c10Classifier(c *core.Ctx) {
 		})
 	}
 	c.Check(okDef, "R12", "default:IsClientError", fn.Pos(), "replaceZeroValuesWithDefaults installs isHTTPStatus4xx when no classifier is given", 1)
+}
+
+// c10Spawners (R13): DoBatchWithOptions waits for the first decisive outcome while the replica calls run
+// elsewhere; that only works if the spawner returns without running the workload itself. The default
+// spawner and concurrency.ReusableGoroutinesPool.Go (the documented alternative) use their parameter
+// only by sending it to a worker, handing it to newWorker, or calling it inside a go statement — never
+// by calling it directly. Also: the guard InstancesCount() <= 0 is about an empty ring: Ring.InstancesCount
+// returns the number of all registered instances.
+func c10Spawners(c *core.Ctx) {
+	pkg := c.Prog.Pkg("ring")
+	direct := func(fn *an.Fn, param types.Object) []string {
+		var out []string
+		var walk func(n ast.Node, inGo bool)
+		walk = func(n ast.Node, inGo bool) {
+			ast.Inspect(n, func(m ast.Node) bool {
+				switch x := m.(type) {
+				case *ast.GoStmt:
+					if m != n {
+						walk(x.Call, true)
+						return false
+					}
+				case *ast.CallExpr:
+					if id, ok := an.Unparen(x.Fun).(*ast.Ident); ok && fn.Info().Uses[id] == param && !inGo {
+						out = append(out, c.Prog.PosStr(x.Pos()))
+					}
+				}
+				return true
+			})
+		}
+		walk(fn.Body(), false)
+		return out
+	}
+	// default spawner
+	if rz := an.FindFunc(pkg, "DoBatchOptions.replaceZeroValuesWithDefaults"); rz != nil {
+		okDef := false
+		var bad []string
+		rz.InspectShallow(func(n ast.Node) bool {
+			as, ok := n.(*ast.AssignStmt)
+			if !ok || len(as.Lhs) != 1 || rz.Canon(as.Lhs[0]) != "recv.Go" {
+				return true
+			}
+			if lit, ok := an.Unparen(as.Rhs[0]).(*ast.FuncLit); ok {
+				if lf := rz.LitFn(lit); lf != nil && lit.Type.Params != nil && len(lit.Type.Params.List) == 1 && len(lit.Type.Params.List[0].Names) == 1 {
+					p := lf.Info().Defs[lit.Type.Params.List[0].Names[0]]
+					bad = direct(lf, p)
+					okDef = len(bad) == 0
+				}
+			}
+			return true
+		})
+		c.Check(okDef, "R13", "spawner=default", rz.Pos(), fmt.Sprintf("the default DoBatchOptions.Go starts the workload in a goroutine (direct calls on the caller's goroutine: %v)", bad), 1)
+	} else {
+		c.Miss("R13", "func=DoBatchOptions.replaceZeroValuesWithDefaults", "not found")
+	}
+	if cp := c.Prog.Pkg("concurrency"); cp != nil {
+		if f := an.FindFunc(cp, "ReusableGoroutinesPool.Go"); f != nil {
+			c.Analysed(f.String())
+			p := f.Obj.Type().(*types.Signature).Params().At(0)
+			bad := direct(f, p)
+			c.Check(len(bad) == 0, "R13", "spawner=concurrency.ReusableGoroutinesPool.Go", f.Pos(), fmt.Sprintf("the pool hands the workload to a worker or a new goroutine on every path and never runs it on the caller's goroutine (direct calls: %v)", bad), 1)
+		} else {
+			c.Miss("R13", "func=concurrency.ReusableGoroutinesPool.Go", "not found")
+		}
+	} else {
+		c.Miss("R13", "pkg=concurrency", "not loaded")
+	}
+	if f := an.FindFunc(pkg, "Ring.InstancesCount"); f != nil {
+		c.Analysed(f.String())
+		g := f.Graph()
+		vals := map[string]bool{}
+		for _, b := range g.Blocks {
+			r := an.ReturnOf(b)
+			if r == nil || len(r.Results) != 1 {
+				continue
+			}
+			if obj := f.ObjOf(r.Results[0]); obj != nil && f.DefCount(obj) > 1 {
+				ex := g.Exec(g.EntryLoc(), []an.Loc{g.Locate(r)}, func(ast.Expr, an.Store) an.Tri { return an.U }, an.ExecOpts{Watch: obj, Unroll: 1})
+				for v := range ex.Vals[0] {
+					vals[v] = true
+				}
+			} else {
+				vals[f.Canon(r.Results[0])] = true
+			}
+		}
+		c.Check(len(vals) == 1 && vals["len(recv.ringDesc.Ingesters)"], "R13", "func=Ring.InstancesCount", f.Pos(), fmt.Sprintf("returns the number of all registered instances (%v): the batch's InstancesCount() <= 0 guard is about an empty ring, not about eligibility", keys(vals)), 1)
+	} else {
+		c.Miss("R13", "func=Ring.InstancesCount", "not found")
+	}
 }
